@@ -9,6 +9,7 @@ import (
 	"pgregory.net/rapid"
 
 	"github.com/apache/yunikorn-core/pkg/common/configs"
+	"github.com/apache/yunikorn-core/pkg/common/resources"
 )
 
 // Users and groups known to the world generators.
@@ -32,6 +33,7 @@ type ConfOpts struct {
 	QuotaPreempt bool // set quota preemption delays and the partition flag
 	WideTrees    bool // 3-5 children per parent (sorting needs several candidates)
 	FewPrioProps bool // priority offsets and priority fences are rare (the crisp priority rule of preemption applies)
+	GuarScenario bool // the situation queue preemption is about: maxima are rare, most queues have a small guaranteed share for memory and vcore
 }
 
 // MarshalConf renders a scheduler configuration as YAML with the repository's own YAML library.
@@ -62,6 +64,9 @@ func (g *confGen) resVal(label string, hi int64) int64 {
 // genMax draws an own maximum within the effective parent maximum; nil means not set.
 func (g *confGen) genMax(parentEff Res, path string) Res {
 	if !g.o.Quotas || rapid.IntRange(0, 9).Draw(g.t, "max-unset-"+path) < 3 {
+		return nil
+	}
+	if g.o.GuarScenario && rapid.IntRange(0, 9).Draw(g.t, "max-rare-"+path) < 8 {
 		return nil
 	}
 	out := Res{}
@@ -332,9 +337,31 @@ func (g *confGen) genQueue(name, parentPath string, depth int, parentEff Res, pa
 	} else if g.o.MaxApps && rapid.IntRange(0, 9).Draw(g.t, "maxapps-set-"+path) < 4 {
 		q.MaxApplications = rapid.Uint64Range(1, 4).Draw(g.t, "maxapps-"+path)
 	}
+	isParent := depth < g.o.MaxDepth && rapid.IntRange(0, 9).Draw(g.t, "parent-"+path) < 5
 	// guaranteed: within own max, within the budget handed down
 	var guar Res
-	if g.o.Quotas && (g.o.Preemption || rapid.IntRange(0, 9).Draw(g.t, "guar-set-"+path) < 4) {
+	if g.o.GuarScenario && isParent && rapid.IntRange(0, 9).Draw(g.t, "guar-scenario-parent-"+path) < 7 {
+		// parents mostly promise nothing themselves: the leaves compete
+	} else if g.o.GuarScenario && rapid.IntRange(0, 9).Draw(g.t, "guar-scenario-"+path) < 8 {
+		// a small share for memory and vcore, the same for both (sometimes only one of them)
+		v := rapid.Int64Range(2, 9).Draw(g.t, "guar-scenario-v"+path)
+		guar = Res{}
+		for _, k := range []string{"memory", "vcore"} {
+			hi := v
+			if e, ok := eff[k]; ok && e < hi {
+				hi = e
+			}
+			if b, ok := guarBudget[k]; ok && b < hi {
+				hi = b
+			}
+			if hi >= 1 && rapid.IntRange(0, 9).Draw(g.t, "guar-scenario-has-"+k+path) < 9 {
+				guar[k] = hi
+			}
+		}
+		if len(guar) == 0 {
+			guar = nil
+		}
+	} else if g.o.Quotas && (g.o.Preemption || rapid.IntRange(0, 9).Draw(g.t, "guar-set-"+path) < 4) {
 		guar = Res{}
 		for _, k := range ResTypes {
 			if rapid.IntRange(0, 9).Draw(g.t, "guar-has-"+k+path) < 5 {
@@ -356,7 +383,6 @@ func (g *confGen) genQueue(name, parentPath string, depth int, parentEff Res, pa
 		}
 	}
 	q.Resources = configs.Resources{Max: own.ConfMap(), Guaranteed: guar.ConfMap()}
-	isParent := depth < g.o.MaxDepth && rapid.IntRange(0, 9).Draw(g.t, "parent-"+path) < 5
 	q.Limits, lim = g.genLimits(path, own, q.MaxApplications, false, lim)
 	if isParent {
 		q.Parent = true
@@ -799,6 +825,122 @@ func MutateConf(t *rapid.T, cur, initial *configs.SchedulerConfig) *configs.Sche
 		default: // ACLs
 			r.q.SubmitACL = rapid.SampledFrom([]string{"*", "u1 g1", "", " g2"}).Draw(t, "acl")
 		}
+	}
+	return out
+}
+
+// PreemptionScenarioConf builds the configuration queue preemption is about: two to four leaf queues (flat, or two of
+// them under a parent) with a small guaranteed share for memory and vcore, no maxima, a preemption delay of 1ms.
+// Nodes are filled by FillNodes afterwards, so some leaves end up above and some below their share.
+func PreemptionScenarioConf(t *rapid.T, quotaPreempt bool) *configs.SchedulerConfig {
+	names := append([]string{}, queueNamePool...)
+	k := rapid.IntRange(2, 4).Draw(t, "scn-leaves")
+	leaf := func(i int) configs.QueueConfig {
+		q := configs.QueueConfig{Name: names[i], Properties: map[string]string{configs.PreemptionDelay: "1ms"}}
+		if rapid.IntRange(0, 9).Draw(t, fmt.Sprintf("scn-guar-%d", i)) < 9 {
+			g := rapid.Int64Range(2, 10).Draw(t, fmt.Sprintf("scn-guar-v-%d", i))
+			q.Resources.Guaranteed = Res{"memory": g, "vcore": g}.ConfMap()
+		}
+		if rapid.IntRange(0, 19).Draw(t, fmt.Sprintf("scn-fence-%d", i)) == 0 {
+			q.Properties[configs.PreemptionPolicy] = "fence"
+		}
+		if rapid.IntRange(0, 5).Draw(t, fmt.Sprintf("scn-prio-fence-%d", i)) == 0 {
+			// a priority fenced sibling: its own tasks are compared through the offset, the others are not affected
+			q.Properties[configs.PriorityPolicy] = "fence"
+			q.Properties[configs.PriorityOffset] = fmt.Sprintf("%d", rapid.IntRange(-2, 2).Draw(t, fmt.Sprintf("scn-prio-offset-%d", i)))
+		}
+		if rapid.IntRange(0, 14).Draw(t, fmt.Sprintf("scn-max-%d", i)) == 0 {
+			m := rapid.Int64Range(10, 30).Draw(t, fmt.Sprintf("scn-max-v-%d", i))
+			q.Resources.Max = Res{"memory": m, "vcore": m}.ConfMap()
+		}
+		return q
+	}
+	root := configs.QueueConfig{Name: "root", Parent: true, SubmitACL: "*"}
+	if rapid.Bool().Draw(t, "scn-nested") && k >= 3 {
+		parent := configs.QueueConfig{Name: "grp", Parent: true}
+		parent.Queues = []configs.QueueConfig{leaf(0), leaf(1)}
+		if rapid.IntRange(0, 3).Draw(t, "scn-parent-guar") == 0 {
+			// at least what the children promise together
+			g := rapid.Int64Range(0, 6).Draw(t, "scn-parent-guar-extra")
+			for _, ch := range parent.Queues {
+				if r, err := resources.NewResourceFromConf(ch.Resources.Guaranteed); err == nil && r != nil {
+					g += int64(r.Resources["memory"])
+				}
+			}
+			if g > 0 {
+				parent.Resources.Guaranteed = Res{"memory": g, "vcore": g}.ConfMap()
+			}
+		}
+		root.Queues = append(root.Queues, parent)
+		for i := 2; i < k; i++ {
+			root.Queues = append(root.Queues, leaf(i))
+		}
+	} else {
+		for i := 0; i < k; i++ {
+			root.Queues = append(root.Queues, leaf(i))
+		}
+	}
+	part := configs.PartitionConfig{Name: "default", Queues: []configs.QueueConfig{root}}
+	part.PlacementRules = []configs.PlacementRule{{Name: "provided", Create: false}}
+	part.NodeSortPolicy.Type = rapid.SampledFrom([]string{"fair", "binpacking"}).Draw(t, "scn-nodesort")
+	tr := true
+	part.Preemption.Enabled = &tr
+	if quotaPreempt && rapid.Bool().Draw(t, "scn-quotapreempt") {
+		part.Preemption.QuotaPreemptionEnabled = &tr
+	}
+	c := &configs.SchedulerConfig{Partitions: []configs.PartitionConfig{part}}
+	if !ValidConf(c) {
+		t.Fatalf("scenario configuration is not valid: %s", MarshalConf(c))
+	}
+	return c
+}
+
+// QuotaSqueeze returns a variation of the configuration in which the maximum of one configured leaf queue that holds
+// allocations is set below (or further below) its usage and its quota preemption delay is (re)drawn: the reload
+// sequence quota change preemption is about (lowering, lowering again before the delay elapsed, delay changes).
+// usage: allocated resources per queue path (lower case). Returns nil when no queue qualifies.
+func QuotaSqueeze(t *rapid.T, cur *configs.SchedulerConfig, usage map[string]Res) *configs.SchedulerConfig {
+	out := CloneConf(cur)
+	type ref struct {
+		q    *configs.QueueConfig
+		path string
+	}
+	var cands []ref
+	var walk func(q *configs.QueueConfig, prefix string)
+	walk = func(q *configs.QueueConfig, prefix string) {
+		p := strings.ToLower(q.Name)
+		if prefix != "" {
+			p = prefix + "." + p
+		}
+		if !q.Parent && len(q.Queues) == 0 && usage[p]["memory"] > 1 {
+			cands = append(cands, ref{q, p})
+		}
+		for i := range q.Queues {
+			walk(&q.Queues[i], p)
+		}
+	}
+	walk(&out.Partitions[0].Queues[0], "")
+	if len(cands) == 0 {
+		return nil
+	}
+	r := cands[rapid.IntRange(0, len(cands)-1).Draw(t, "squeeze-queue")]
+	u := usage[r.path]
+	if r.q.Resources.Max == nil {
+		r.q.Resources.Max = map[string]string{}
+	}
+	for _, k := range []string{"memory", "vcore"} {
+		if u[k] > 1 {
+			r.q.Resources.Max[k] = Res{k: rapid.Int64Range(1, u[k]-1).Draw(t, "squeeze-"+k)}.ConfMap()[k]
+		}
+	}
+	if r.q.Properties == nil {
+		r.q.Properties = map[string]string{}
+	}
+	r.q.Properties[configs.QuotaPreemptionDelay] = rapid.SampledFrom([]string{"1ms", "1ms", "1h", "2h"}).Draw(t, "squeeze-delay")
+	tr := true
+	out.Partitions[0].Preemption.QuotaPreemptionEnabled = &tr
+	if !ValidConf(out) {
+		return nil
 	}
 	return out
 }
